@@ -281,7 +281,9 @@ def o1_subjob_order(F, r):
     fn = F.fns[sb]
     skip_arg = [int(k) for k, v in fn["names"].items() if v == "skip" and int(k) <= fn["argc"]]
     if not skip_arg:
-        raise AnchorError("sample_best: no `skip` parameter")
+        skip_arg = [i for i in range(1, fn["argc"] + 1) if fn["locals"][i] == "usize"]      # renamed: the start index is the only usize parameter
+    if len(skip_arg) != 1:
+        raise AnchorError("sample_best: the start-index parameter (the only usize parameter) was not found")
     skip_arg = skip_arg[0]
     legs = [(bi, t) for bi, t in mir.calls(fn) if t["callee"] == TOUR + "legs"]
     if not legs:
